@@ -80,4 +80,32 @@ theorem i2At_succ (j : ℕ) :
   rw [h4, h44]
   linear_combination (C ((2 : ℚ) ^ j) * C ((2 : ℚ) ^ j)) * h
 
+/-! ## the power-series loop stops -/
+
+theorem powRun_stops (X : QMat) (tol : ℚ) (M : ℕ) :
+    ∀ (f : ℕ) (st : PowState), M ≤ st.j + f →
+      powCont tol M (powRun X tol M f st) = false ∧ st.j ≤ (powRun X tol M f st).j := by
+  intro f
+  induction f with
+  | zero =>
+    intro st h
+    simp only [powRun]
+    refine ⟨?_, le_refl _⟩
+    unfold powCont
+    have : ¬ st.j < M := by omega
+    simp [this]
+  | succ f ih =>
+    intro st h
+    unfold powRun
+    by_cases hc : powCont tol M st = true
+    · rw [if_pos hc]
+      have := ih (powStep X st) (by simp only [powStep]; omega)
+      refine ⟨this.1, ?_⟩
+      have h2 := this.2
+      simp only [powStep] at h2 ⊢
+      omega
+    · rw [if_neg hc]
+      exact ⟨by simpa using hc, le_refl _⟩
+
+
 end PyYetiVerif.ExpSeries
